@@ -24,7 +24,7 @@ def load(path):
 def main():
     os.makedirs(OUT, exist_ok=True)
     rows = []
-    for d in sorted(glob.glob(os.path.join(SRC, "C[0-9][0-9]_[0-9]"))):
+    for d in sorted(x for x in glob.glob(os.path.join(SRC, "C[0-9][0-9]_*[a-z0-9]")) if os.path.isdir(x)):
         name = os.path.basename(d)
         results = {}
         for f in sorted(glob.glob(os.path.join(RES, name + "*.json"))):
